@@ -114,7 +114,12 @@ CHECKS = {
         'default_exports_clean, walletkey_* variants, private_columns_encrypted; Glue lemmas make a removed stripping line or a new caching attribute '
         'break the proof. Wallet level: configurations (master private, private or public account-level key, single keys, cosigner wallets) and operation histories '
         'with public_master() / wif() interpreted over the regenerated return-path tables: wallet_public_view_clean, wallet_returns_clean, wallet_default_exports_clean, wallet_methods_glue (path tables, bodies and default argument lists of 25 view/export entry points equal the frozen copies). Tie: random method histories on real keys, wallet keys and WALLETS of every configuration (every public-view entry point, recursing into cosigner wallets) with a byte-level scan (pickle, deepcopy, __dict__ walk, '
-        'as_dict/as_json/repr/info, raw sqlite file with field encryption) for every encoding of the secret.',
+        'as_dict/as_json/repr/info, raw sqlite file with field encryption) for every encoding of the secret.'
+        ' Arguments of the view entry points: every public-named function with its parameter list and the keyword forwarding of its inner calls is regenerated from the AST '
+        '(entry_params, call_forwards) and interpreted fail-closed: xpublic_view_clean, public_master_args_clean, public_master_multisig_clean, wif_public_args_clean, '
+        'hd_wif_args_clean, wallet_public_master_args_clean for ALL argument values that do not ask for private output; view_entry_points_glue makes a new parameter of a '
+        'public-named function or a mis-forwarded keyword break a proof. Tie: pvk / pvw requests call every reviewed view entry point with the product of argument values '
+        'and scan for the source secret and every private key on the derivation path.',
    design_ref='DESIGN.md section 6 C16, section 9',
    note='Partial: Python object graph, pickle, sqlite file layout are runtime, covered by the scan (testing). One-way steps (EC multiplication, BIP38 '
         'encryption) are declassification points of the model. One known finding (dbkey_repr_private_wif). Closed under the global context.',
